@@ -425,7 +425,7 @@ theorem dot_le_clamped_max (p R : List α) (hp : IsDist p) (hl : p.length = R.le
   cases R with
   | nil => simp
   | cons x xs =>
-    obtain ⟨_, h2⟩ := foldl_fmax_spec xs x
+    obtain ⟨_, h2⟩ := foldl_fmax_mem_le xs x
     have := dot_le_sum_mul (xs.foldl fmax x) p (x :: xs) hp.1 h2 hl
     rw [hp.2, one_mul] at this
     exact le_trans this (le_max_left _ _)
